@@ -18,10 +18,23 @@ Domain (one case = one fresh session):
           unfinished exchange; "send@rekey-zero-window" sits in the window wait and the re-exchange
           starts while it waits; recv / accept(None) wait where they always wait
   pre     for the channel-level calls: the history of the channel object before the call - none, shutdown_read(),
-          shutdown_write(), shutdown(2), EOF received from the peer, set_combine_stderr(True). Where that history
-          makes the call non-blocking by contract (recv after the peer's EOF, send after shutdown_write, channel requests
-          after EOF in either direction) only the
-          loss-first / together moments apply
+          shutdown_write(), shutdown(2), EOF received from the peer, set_combine_stderr(True), local-close (the
+          application called Channel.close(): EOF + CLOSE are on the wire and were seen by the peer, the peer's CLOSE
+          has not arrived when the connection is lost - the channel is "closed" but still registered with the
+          transport), peer-close (the peer's CLOSE arrived and was answered: the channel is closed and unlinked).
+          Where that history makes the call non-blocking by contract (recv after the peer's EOF, send after
+          shutdown_write, channel requests after EOF in either direction, every call on a closed channel) only the
+          loss-first / together moments apply; quick runs each such (call, pre-state) pair once in loss-first order
+  tx      state of the tested side's SEND direction when the connection is lost: ok, or "full" - the peer has stopped
+          reading and every buffer on the way is full, so the socket-like object accepts nothing (send() waits out the
+          0.1 s socket timeout and raises socket.timeout, as a kernel socket with a full send buffer does). Two forms:
+          the calls "<call>@tx-full" (send / sendall on an open window, exec_command, global_request) are issued
+          with the direction already full, so the caller sits in Packetizer.write_all holding the packetizer's write
+          lock when the connection is lost (every link loss); and the case field tx="full" makes the direction full
+          right before the loss trigger for any call (combined with the losses that end the connection at the socket
+          or locally: peer-close, link-eof, link-error, local-close - after a DISCONNECT / garbage the puppet keeps
+          its socket open, and a transport thread that still has to write to a peer that neither reads nor hangs up
+          would not be a lost connection). Link only (a full pipe into a ProxyCommand child is not modelled)
   timeout None, or 5 s where the API has a timeout knob (settimeout / timeout= / auth_timeout)
   moment  call-first (the call is verifiably blocked, then the loss happens), loss-first (the loss
           happened and the transport noticed it, then the call is issued), together (call and
@@ -67,8 +80,13 @@ RULE = (
     "(send, sendall, exec_command, invoke_subsystem, global_request, open_session) and for recv / accept / a send on a zero window, "
     "the state 'a key re-exchange is in flight' (started by the tested side or by the peer - drawn -, the peer's next kex packet held on the link, "
     "so the sending calls are parked in Transport._send_user_message and the starting renegotiate_keys() is one more blocked call); the channel-level calls "
-    "additionally x channel pre-state {none, shutdown_read, shutdown_write, shutdown(2), peer EOF received, set_combine_stderr} (quick: every channel call x pre-state "
-    "once in call-first order with a rotating loss, drawn in the other moments; thorough: x every loss x moment) (quick: every applicable call x loss pair "
+    "additionally x channel pre-state {none, shutdown_read, shutdown_write, shutdown(2), peer EOF received, set_combine_stderr, local-close = Channel.close() called and the "
+    "peer's CLOSE still outstanding at the loss, peer-close = closed by the peer and unlinked} (quick: every channel call x pre-state "
+    "once with a rotating loss - in call-first order where the history leaves the call blocking, in loss-first order where it makes the call non-blocking by contract -, "
+    "drawn in the other moments; thorough: x every loss x moment); "
+    "x state of the tested side's send direction at the loss {ok, full = the peer stopped reading, the socket-like object accepts nothing}: the calls '<call>@tx-full' "
+    "(send, sendall, exec_command, global_request issued on a full direction: blocked in Packetizer.write_all holding the write lock) x every link loss, and the "
+    "case field tx=full (direction made full right before the loss trigger) for every call once in quick with the loss rotating over peer-close / link-eof / link-error / local-close (quick: every applicable call x loss pair "
     "once in call-first order over the link, every client call over a real ProxyCommand child for 'child gone' (exit / SIGKILL alternating per call), "
     "'stdout EOF while the child lingers' and one loss that reaches the transport another way, plus "
     "drawn loss-first/together cases; thorough: full product x 3 moments x repetitions, sharded), errno / garbage flavour / "
@@ -91,7 +109,7 @@ class Inconclusive(Exception):
 
 
 class Spec:
-    def __init__(self, role, fn, expect, kind="session", auth=True, chan=False, mute="raw", timeouts=(None,), ready=None, moments=("call-first", "loss-first", "together"), callers=1, fill=False, service=False, rekey=None):
+    def __init__(self, role, fn, expect, kind="session", auth=True, chan=False, mute="raw", timeouts=(None,), ready=None, moments=("call-first", "loss-first", "together"), callers=1, fill=False, service=False, rekey=None, tx_full=False):
         self.role = role
         self.fn = fn
         self.expect = expect  # (file basename, function) that must be on the blocked caller's stack
@@ -108,6 +126,8 @@ class Spec:
         # a key re-exchange is in flight at the loss: "before" = started before the call is issued (the call parks
         # behind it), "after-call" = in call-first order it starts once the call is blocked (otherwise before)
         self.rekey = rekey
+        # the tested side's send direction is already full when the call is issued (the call blocks in write_all)
+        self.tx_full = tx_full
 
 
 def _saw(ptype):
@@ -216,9 +236,14 @@ def _kex_held(env):
     return env.rekey_started and env.rx.n_pending() >= 1
 
 
+def _sender_stalled(env):
+    return env.tx.blocked_senders >= 1 or env.tx.refused >= 1
+
+
 CF = ("call-first",)
 T5 = (None, 5)
 SUM = ("transport.py", "_send_user_message")
+WRA = ("packet.py", "write_all")
 CALLS = {
     "recv": Spec("client", c_recv, ("buffered_pipe.py", "read"), chan=True, timeouts=T5),
     "recv_stderr": Spec("client", c_recv_stderr, ("buffered_pipe.py", "read"), chan=True, timeouts=T5),
@@ -256,6 +281,11 @@ CALLS = {
     "send@rekey-zero-window": Spec("client", c_send, ("channel.py", "_wait_for_send_window"), chan=True, mute="hold", timeouts=T5, fill=True, ready=_kex_held, rekey="after-call"),
     "recv@rekey": Spec("client", c_recv, ("buffered_pipe.py", "read"), chan=True, mute="hold", timeouts=T5, ready=_kex_held, rekey="after-call"),
     "accept-none@rekey": Spec("server", c_accept_none, ("transport.py", "accept"), mute="hold", ready=_kex_held, rekey="after-call"),
+    # -- the peer has stopped reading and the send side is full: the caller sits in Packetizer.write_all (write lock held)
+    "send@tx-full": Spec("client", c_send, WRA, chan=True, timeouts=T5, ready=_sender_stalled, tx_full=True),
+    "sendall@tx-full": Spec("client", c_sendall, WRA, chan=True, timeouts=T5, ready=_sender_stalled, tx_full=True),
+    "exec_command@tx-full": Spec("client", c_exec, WRA, chan=True, ready=_sender_stalled, tx_full=True),
+    "global_request@tx-full": Spec("client", c_global_request, WRA, ready=_sender_stalled, tx_full=True),
 }
 
 LINK_LOSSES = ("peer-close", "link-eof", "link-error", "local-close", "disconnect", "garbage")
@@ -268,19 +298,28 @@ MOMENTS = ("call-first", "loss-first", "together")
 ERRNOS = (errno.ECONNRESET, errno.ENETUNREACH, errno.EHOSTUNREACH, errno.EPIPE, errno.ENETDOWN, errno.ECONNABORTED, errno.EIO, errno.ENOTCONN)
 
 # history of the channel object before the call (channel-level calls only)
-PRE_STATES = ("none", "shutdown_read", "shutdown_write", "shutdown_rdwr", "peer-eof", "combine-stderr")
+PRE_STATES = ("none", "shutdown_read", "shutdown_write", "shutdown_rdwr", "peer-eof", "combine-stderr", "local-close", "peer-close")
+CHAN_BASE_CALLS = ("recv", "recv_stderr", "send", "sendall", "recv_exit_status", "exec_command", "invoke_subsystem")
+# losses the tx="full" case field is combined with (see module docstring)
+TX_FULL_LOSSES = ("peer-close", "link-eof", "link-error", "local-close")
 # (base call, pre-state) pairs that return at once by contract, connection or not: never "blocked at the loss"
 PRE_NOT_BLOCKING = frozenset(
     [(c, "peer-eof") for c in ("recv", "recv_stderr")]
     + [(c, p) for c in ("send", "sendall") for p in ("shutdown_write", "shutdown_rdwr")]
     # channel requests are refused ("Channel is not open") once either direction has seen / feigned EOF
     + [(c, p) for c in ("exec_command", "invoke_subsystem") for p in ("shutdown_read", "shutdown_write", "shutdown_rdwr", "peer-eof")]
+    # a closed channel: recv reads EOF, send / requests are refused, the exit status is final (-1 if none came)
+    + [(c, p) for c in CHAN_BASE_CALLS for p in ("local-close", "peer-close")]
 )
 
 
-def applicable(call, loss, moment, timeout, via, pre="none"):
+def applicable(call, loss, moment, timeout, via, pre="none", tx="ok"):
     sp = CALLS[call]
     if moment not in sp.moments or timeout not in sp.timeouts:
+        return False
+    if (sp.tx_full or tx != "ok") and via != "link":
+        return False
+    if tx != "ok" and loss not in TX_FULL_LOSSES:
         return False
     if pre != "none":
         if not sp.chan:
@@ -587,6 +626,8 @@ class Env:
                 self.rx.set_hold(True)
         if sp.rekey and not (sp.rekey == "after-call" and self.case["moment"] == "call-first"):
             self.start_rekey()
+        if sp.tx_full:
+            self.tx.set_full(True)
 
     def apply_pre(self):
         """Give the channel its history (public API only); the peer is still answering at this point."""
@@ -599,6 +640,25 @@ class Env:
             ch.shutdown(2)
         elif pre == "combine-stderr":
             ch.set_combine_stderr(True)
+        elif pre == "local-close":
+            # the application closes the channel; the peer sees EOF + CLOSE but never answers (record-only while they
+            # arrive), so the channel stays registered with the transport, waiting for the peer's CLOSE
+            was_raw = self.peer.packetizer.raw_mode
+            self.peer.raw(True)
+            ch.close()
+            if not self.peer.wait_log(lambda lg: any(e[1] == 97 for e in lg), SETUP_T):
+                raise Inconclusive("local CLOSE not seen by the peer")
+            self.peer.raw(was_raw)
+        elif pre == "peer-close":
+            # the peer closes the channel; the tested side answers with its own CLOSE and forgets the channel
+            self.peer.send_raw_seq(peers.m_channel_close(ch.get_id()))
+            end = time.monotonic() + SETUP_T
+            while not ch.closed:
+                if time.monotonic() >= end:
+                    raise Inconclusive("peer CLOSE not processed")
+                time.sleep(0.005)
+            if not self.link.wait_quiescent(SETUP_T):
+                raise Inconclusive("link not quiescent after the peer's close")
         elif pre == "peer-eof":
             # EOF for the tested channel, then a global request the tested side has to answer: messages are handled in
             # order, so once the answer is on the wire the EOF has been processed
@@ -705,6 +765,9 @@ class Env:
     def lose(self):
         loss, flavor = self.case["loss"], self.case["flavor"]
         held = self.rx.hold
+        if self.case.get("tx", "ok") == "full":
+            # from now on the peer does not read any more and nothing further fits into the send side
+            self.tx.set_full(True)
         if loss == "peer-close":
             self.peer.close()
         elif loss == "link-eof":
@@ -979,7 +1042,10 @@ def decide(case, tmpdir, fam):
 
 def bucket_of(case):
     pre = case.get("pre", "none")
-    return "%s:%s:%s" % (case["call"] + ("" if pre == "none" else "+" + pre), case["loss"] if case["via"] == "link" or case["loss"] in PROXY_LOSSES else "proxy+" + case["loss"], case["moment"])
+    loss = case["loss"] if case["via"] == "link" or case["loss"] in PROXY_LOSSES else "proxy+" + case["loss"]
+    if case.get("tx", "ok") != "ok":
+        loss += "+tx-" + case["tx"]
+    return "%s:%s:%s" % (case["call"] + ("" if pre == "none" else "+" + pre), loss, case["moment"])
 
 
 def record(ctx, case, r):
@@ -994,16 +1060,22 @@ def record(ctx, case, r):
         return
     cls = ["call:" + case["call"], "loss:" + case["loss"], "moment:" + case["moment"], "via:" + case["via"], "timeout:%s" % case["timeout"]] + r["classes"]
     if case.get("pre", "none") != "none":
-        cls += ["pre:" + case["pre"], "pre:%s:%s" % (base_call(case), case["pre"])]
+        cls += ["pre:" + case["pre"], "pre:%s:%s" % (base_call(case), case["pre"]), "pre:%s:%s" % (case["pre"], case["moment"])]
+    if case.get("tx", "ok") != "ok":
+        cls += ["tx:%s-at-loss" % case["tx"], "tx:%s-at-loss:%s" % (case["tx"], case["loss"])]
+    if CALLS[case["call"]].tx_full:
+        cls += ["tx:full-before-call", "tx:full-before-call:%s" % case["loss"]]
     ctx.case(case, r["nontrivial"], cls)
     if r["status"] == "violation":
         ctx.violation(r["clause"], bucket_of(case), case, r["detail"])
 
 
-def mk_case(call, loss, moment, timeout, via, flavor=0, skew=0, pre="none"):
+def mk_case(call, loss, moment, timeout, via, flavor=0, skew=0, pre="none", tx="ok"):
     case = {"call": call, "loss": loss, "moment": moment, "timeout": timeout, "via": via, "flavor": flavor, "skew": skew if moment == "together" else 0}
     if pre != "none":
         case["pre"] = pre
+    if tx != "ok":
+        case["tx"] = tx
     return case
 
 
@@ -1067,14 +1139,22 @@ class Pool:
 
 
 def worklist(ctx):
-    """[(call, loss, moment, timeout-or-'draw', via, pre)] in execution order."""
+    """[(call, loss, moment, timeout-or-'draw', via, pre[, tx])] in execution order."""
     items = []
     if ctx.quick:
         rot = 0
+        rot_nb = 0
+        rot_tx = 0
         nclient = 0
         for call in CALLS:
             for loss in LINK_LOSSES:
                 items.append((call, loss, "call-first", "draw", "link", "none"))
+            if not CALLS[call].tx_full:
+                # the send direction becomes full right before the loss (the loss rotating through those it applies to)
+                loss = TX_FULL_LOSSES[rot_tx % len(TX_FULL_LOSSES)]
+                if applicable(call, loss, "call-first", CALLS[call].timeouts[0], "link", "none", "full"):
+                    items.append((call, loss, "call-first", "draw", "link", "none", "full"))
+                    rot_tx += 1
             if CALLS[call].role == "client":
                 # over a real ProxyCommand child: the child goes away (exits / is SIGKILLed, alternating per call), the
                 # child's stdout reaches EOF while it lingers, plus one loss that reaches the transport some other way
@@ -1083,10 +1163,14 @@ def worklist(ctx):
                     items.append((call, loss, "call-first", "draw", "proxy", "none"))
             if CALLS[call].chan:
                 # every channel pre-state once per call, the loss rotating through the link losses
+                # (in loss-first order where that history makes the call non-blocking by contract)
                 for pre in PRE_STATES[1:]:
                     if applicable(call, LINK_LOSSES[0], "call-first", None, "link", pre):
                         items.append((call, LINK_LOSSES[rot % len(LINK_LOSSES)], "call-first", "draw", "link", pre))
                         rot += 1
+                    elif applicable(call, LINK_LOSSES[0], "loss-first", None, "link", pre):
+                        items.append((call, LINK_LOSSES[rot_nb % len(LINK_LOSSES)], "loss-first", "draw", "link", pre))
+                        rot_nb += 1
     else:
         reps = 3
         full = []
@@ -1099,7 +1183,9 @@ def worklist(ctx):
                             full.append((call, loss, moment, t, via, "none"))
                         if sp.chan:
                             for pre in PRE_STATES[1:]:
-                                extra.append((call, loss, moment, sp.timeouts[(len(extra) // 5) % len(sp.timeouts)], via, pre))
+                                extra.append((call, loss, moment, sp.timeouts[(len(extra) // (len(PRE_STATES) - 1)) % len(sp.timeouts)], via, pre))
+                        if via == "link" and loss in TX_FULL_LOSSES:
+                            extra.append((call, loss, moment, sp.timeouts[len(extra) % len(sp.timeouts)], via, "none", "full"))
         full = [x for x in full if applicable(*x)]
         full = full * reps + [x for x in extra if applicable(*x)]
         items = [x for i, x in enumerate(full) if i % ctx.nworkers == ctx.worker]
@@ -1123,15 +1209,19 @@ def run(ctx):
     nth = {}
 
     def submit(chosen):
-        for (call, loss, moment, t, via, pre), (use_t, flavor, skew) in chosen:
+        for item, (use_t, flavor, skew) in chosen:
+            call, loss, moment, t, via, pre = item[:6]
+            tx = item[6] if len(item) > 6 else "ok"
             if t == "draw":
                 ts_ = CALLS[call].timeouts
                 t = ts_[-1] if use_t else ts_[0]
             if pre != "none" and not applicable(call, loss, moment, t, via, pre):
                 pre = "none"  # drawn pre-state does not apply to this call / moment
-            if not applicable(call, loss, moment, t, via, pre):
+            if tx != "ok" and not applicable(call, loss, moment, t, via, pre, tx):
+                tx = "ok"  # drawn send-side state does not apply to this loss / via
+            if not applicable(call, loss, moment, t, via, pre, tx):
                 continue
-            case = mk_case(call, loss, moment, t, via, flavor, skew, pre)
+            case = mk_case(call, loss, moment, t, via, flavor, skew, pre, tx)
             key = exclusion(case, fam)
             if key:
                 ctx.exclude(key)
@@ -1177,14 +1267,15 @@ def run(ctx):
         st.sampled_from(("link", "link", "proxy")),
         draw,
         st.sampled_from(("none",) * 3 + PRE_STATES[1:]),
+        st.sampled_from(("ok", "ok", "full")),
     )
 
     def rnd_body(lst):
         chosen = []
-        for call, loss, moment, via, d, pre in lst:
+        for call, loss, moment, via, d, pre, tx in lst:
             if loss in PROXY_LOSSES:
                 via = "proxy"
-            chosen.append(((call, loss, moment, "draw", via, pre), d))
+            chosen.append(((call, loss, moment, "draw", via, pre, tx), d))
         submit(chosen)
 
     ctx.explore(st.lists(rnd, min_size=per, max_size=per), skipping_first(rnd_body), ctx.scale(2, 6) + 1, shrink=False, seed_offset=1)
@@ -1209,7 +1300,7 @@ _deferred = []
 
 
 def _norm(case):
-    return mk_case(case["call"], case["loss"], case["moment"], case["timeout"], case["via"], case.get("flavor", 0), case.get("skew", 0), case.get("pre", "none"))
+    return mk_case(case["call"], case["loss"], case["moment"], case["timeout"], case["via"], case.get("flavor", 0), case.get("skew", 0), case.get("pre", "none"), case.get("tx", "ok"))
 
 
 def _collect(ctx, case, th):
